@@ -41,9 +41,20 @@ def gen_raw_driver(envs, groups, ninner, stem, with_swap=True):
                 expect[(name, "-", env.aname(a))] = lay[i - 1]["align"]
             src.append('  printf("S %s %%zu\\n", sizeof(%s));' % (name, name))
             expect[(name, "sizeof")] = lay[i - 1]["size"]
+            src.append('  printf("O %s - alignof %%zu\\n", alignof(%s));' % (name, name))
+            expect[(name, "-", "alignof")] = lay[i - 1]["align"]
             return
         if d["k"] != "struct":
             return
+        # alignment of the struct and of every later block (cast<>() relies on it to find the block)
+        blocks = {}
+        for part in raw[i - 1]:
+            blocks[part["b"]] = max(blocks.get(part["b"], 1), part["a"])
+        for b, al in sorted(blocks.items()):
+            scope = name if b == 0 else "%s::part%d" % (name, b + 1)
+            sc = "-" if b == 0 else "part%d" % (b + 1)
+            src.append('  printf("O %s %s alignof %%zu\\n", alignof(%s));' % (name, sc, scope))
+            expect[(name, sc, "alignof")] = lay[i - 1]["align"] if b == 0 else al
         for part in raw[i - 1]:
             j, r, b, off = part["j"], part["r"], part["b"], part["off"]
             m = d["ms"][j - 1]
@@ -220,7 +231,9 @@ def check_tables(groups, envs, exe, wd, expect, res):
             if key[1] == "sizeof":
                 what = "sizeof(%s) = %r, wire size %d" % (key[0], have, want)
             else:
-                what = "offsetof(%s%s, %s) = %r, wire offset %d" % (
+                what = "alignof(%s%s) = %r, wire alignment of the block %d" % (
+                    key[0], "" if key[1] == "-" else "::" + key[1], have, want) if key[2] == "alignof" else \
+                    "offsetof(%s%s, %s) = %r, wire offset %d" % (
                     key[0], "" if key[1] == "-" else "::" + key[1], key[2], have, want)
             _fail(res, "offsets", env, g, None, what, type=key[0], member=key[2] if len(key) > 2 else None)
     res["n_cases"] += len(expect)
